@@ -316,6 +316,9 @@ func c20Systematic(tier string) []*Case {
 
 func c20Random(s Src, tier string) *Case {
 	n := s.Int("nlines", 2, 12)
+	if Chance(s, "longsession", 1, 12) {
+		n = s.Int("nlines2", 13, 60)
+	}
 	var pool []c20Line
 	for i := 0; i < n; i++ {
 		pool = append(pool, c20Pool[s.Int("line", 0, len(c20Pool)-1)])
